@@ -22,9 +22,11 @@ import (
 // dynamic type when known; Deser marks a pending std.Deserialize result.
 type Val struct {
 	spec.TV
-	Deser *sx.T
-	Iter  *IterVal // storage iterator; T is the number of items consumed
-	Pair  *[2]Val  // key/value item of an iterator awaiting its struct type
+	KnownLen int     // for byte buffers built by make([]byte, const): the constant length + 1 (0 = unknown)
+	Cells    []*sx.T // for such buffers: one single-byte string term per position
+	Deser    *sx.T
+	Iter     *IterVal // storage iterator; T is the number of items consumed
+	Pair     *[2]Val  // key/value item of an iterator awaiting its struct type
 }
 
 // IterVal is the ghost snapshot behind a storage.Find iterator.
@@ -35,9 +37,12 @@ type IterVal struct {
 	Opts   int64
 }
 
-func (it *IterVal) lenT() *sx.T        { return sx.Atom(fmt.Sprintf("snap%d_len", it.ID)) }
-func (it *IterVal) keyT(j *sx.T) *sx.T { return sx.App(fmt.Sprintf("snap%d_key", it.ID), j) }
-func (it *IterVal) idxT(k *sx.T) *sx.T { return sx.App(fmt.Sprintf("snap%d_idx", it.ID), k) }
+// The snapshot of storage.Find(prefix) on store S is described by three global functions of (S, prefix):
+// cnt = number of keys with the prefix, skey(j) = the j-th such key in ascending bytewise order,
+// sidx(k) = the position of key k. Contracts can name them (cnt, skey, sidx).
+func (it *IterVal) lenT() *sx.T        { return sx.App("cnt", it.Store, it.Prefix) }
+func (it *IterVal) keyT(j *sx.T) *sx.T { return sx.App("skey", it.Store, it.Prefix, j) }
+func (it *IterVal) idxT(k *sx.T) *sx.T { return sx.App("sidx", it.Store, it.Prefix, k) }
 
 type loopCtx struct {
 	label      string
@@ -884,12 +889,6 @@ func (e *Engine) convert(v Val, to spec.Type) Val {
 	panic(fmt.Sprintf("unsupported conversion %s -> %s", v.Ty.Sort(), to.Sort()))
 }
 
-func tdiv(a, b *sx.T) *sx.T {
-	q := sx.App("div", sx.App("abs", a), sx.App("abs", b))
-	same := sx.App("=", sx.App(">=", a, sx.Int(0)), sx.App(">", b, sx.Int(0)))
-	return sx.Ite(same, q, sx.App("-", q))
-}
-
 func (e *Engine) binop(op token.Token, l, r Val) Val {
 	B := spec.KBool
 	if l.Ty.K == spec.KOpt {
@@ -955,10 +954,9 @@ func (e *Engine) binop(op token.Token, l, r Val) Val {
 	}
 	switch op {
 	case token.QUO:
-		return mk(tdiv(l.T, r.T), spec.KInt)
+		return mk(spec.Tdiv(l.T, r.T), spec.KInt)
 	case token.REM:
-		m := sx.App("mod", sx.App("abs", l.T), sx.App("abs", r.T))
-		return mk(sx.Ite(sx.App(">=", l.T, sx.Int(0)), m, sx.App("-", m)), spec.KInt)
+		return mk(spec.Tmod(l.T, r.T), spec.KInt)
 	case token.ADD, token.SUB, token.MUL:
 		return mk(sx.App(op.String(), l.T, r.T), spec.KInt)
 	case token.LSS, token.LEQ, token.GTR, token.GEQ:
